@@ -4,16 +4,18 @@ import PlasVerif.Spec.Links
 namespace PlasVerif.Driver.C14
 open PlasVerif.Driver PlasVerif.Model.Urls PlasVerif.Spec.Links
 
-/- request:  url <split> <tocdepth> <nonfiles 0|1> <base|-> <nrefs> <label>* <tree>
-   tree ::= N <level> <label|-> <num|-> <nkids> tree*            (prefix encoding) -/
+/- request:  url <split> <tocdepth> <nonfiles 0|1> <base|-> <filename template, blanks as ~> <nrefs> <label>* <tree>
+   tree ::= (N|F) <level> <label|-> <num|-> <nkids> tree*        (prefix encoding; F = a \footnote) -/
 mutual
 def parseTree : Nat → List String → Option (Tree × List String)
   | 0, _ => none
-  | fuel + 1, "N" :: lv :: lab :: num :: nk :: r => do
+  | fuel + 1, kind :: lv :: lab :: num :: nk :: r => do
+    if kind != "N" && kind != "F" then none
     let lv ← lv.toInt?
     let nk ← nk.toNat?
     let (ks, r) ← parseKids fuel nk r
-    pure (.node lv (if lab == "-" then none else some (.lab lab)) (if num == "-" then "" else num) none ks, r)
+    pure (.node lv (if lab == "-" then none else some (.lab lab))
+            { num := (if num == "-" then "" else num), foot := kind == "F" } none ks, r)
   | _, _ => none
 def parseKids : Nat → Nat → List String → Option (List Tree × List String)
   | 0, _, _ => none
@@ -63,7 +65,7 @@ def closure (toc : List Nat) (next : List (Nat × Option Nat)) : Nat → List Na
     closure toc next n (acc ++ more.filter (fun x => !acc.contains x))
 
 def handle : List String → String
-  | "url" :: split :: depth :: nonf :: base :: nrefs :: rest =>
+  | "url" :: split :: depth :: nonf :: base :: tmpl :: nrefs :: rest =>
     match split.toInt?, depth.toInt?, nrefs.toNat? with
     | some split, some depth, some nrefs =>
       let refs := rest.take nrefs
@@ -71,7 +73,8 @@ def handle : List String → String
       | some (t0, []) =>
         let nonFiles := nonf == "1"
         let base := normBase (if base == "-" then "" else base)
-        let t := prepare split t0 0
+        let template := (tmpl.replace "~" " ").toList
+        let t := prepare (effSplit split template) t0 0
         let us := urls [] t
         let out := render t
         let files := out.2
@@ -91,9 +94,13 @@ def handle : List String → String
         let sR := ",".intercalate (rs.map (fun p => match p.2 with
           | some (u, n) => s!"{p.1}={urlStr base u}~{n}"
           | none => s!"{p.1}=??"))
-        let model := s!"U:{sU}|F:{sF}|T:{sT}|N:{sN}|R:{sR}"
+        let fileStr : Option Nat → String := fun o => match o with | some k => s!"f{k}" | none => "-"
+        let foots := footnotes [] t
+        let sX := ",".intercalate (foots.map (fun e =>
+          s!"{(e.1.id.map idStr).getD "?"}={fileStr e.2.1}~{fileStr e.2.2}"))
+        let model := s!"U:{sU}|F:{sF}|T:{sT}|N:{sN}|R:{sR}|X:{sX}"
         -- property oracle on the model's own output (domain: distinct labels, root creates a file, levels nest)
-        let wf := nodupB (labelsOf t0) && isDoc && monotone t0 && nests t0
+        let wf := nodupB (labelsOf t0) && isDoc && monotone t0 && nests t0 && inputOK t0 && decide (split < endSections)
         let links := us.map (·.2) ++ toc ++ nav.filterMap (·.2.1) ++ nav.filterMap (·.2.2) ++ rs.filterMap (fun p => p.2.map (·.1))
         let landAll := links.all (fun u => landsB files (toLink u))
         let uniq := uniqueIdsB files
@@ -105,9 +112,10 @@ def handle : List String → String
           | some (_, n), some (nd, _) => n == nd.num
           | none, _ => true
           | _, _ => false)
+        let footOk := foots.all (fun e => e.2.1.isSome && e.2.1 == e.2.2) && navOK t
         let spec := if !wf then "-" else
-          if landAll && uniq && reach && numOk && tocOK t then "ok"
-          else s!"bad:land={boolStr landAll}:uniq={boolStr uniq}:reach={boolStr reach}:num={boolStr numOk}:tocok={boolStr (tocOK t)}"
+          if landAll && uniq && reach && numOk && tocOK t && footOk then "ok"
+          else s!"bad:land={boolStr landAll}:uniq={boolStr uniq}:reach={boolStr reach}:num={boolStr numOk}:tocok={boolStr (tocOK t)}:foot={boolStr footOk}"
         s!"{model}\t{spec}"
       | _ => "bad-op"
     | _, _, _ => "bad-op"
